@@ -1,7 +1,146 @@
-From Coq Require Import QArith.
-From Asynkit Require Import Base.Prelude Queue.PQ Queue.PosPQ Sched.Model.
-(* placeholder: the C12 theorems land in Sched/InheritProofs.v *)
-Theorem C12_wake_targets_heap_head :
-  forall s l, arr (lpq (getl s l)) = [] -> wake_up_first_p s l = s.
-Proof. intros s l H. unfold wake_up_first_p. rewrite H. reflexivity. Qed.
-Print Assumptions C12_wake_targets_heap_head.
+(* C12 - PriorityLock hands over in effective-priority order.
+   Statements over the executable scheduler model (Sched/Model.v).  The waiter queue of lock
+   l is [lpq (getl s l)]: a heapq array [arr] of entries (epri = key, eseq = arrival
+   sequence number, eobj = waiter future), with [lwt] mapping each future to its task.
+   Vocabulary (Sched/InheritHandover.v, Sched/InheritKeys.v):
+     entry_task lk e   = the task recorded for the future of entry e;
+     wprio s w         = effective_priority s w for a PriorityTask, 0 for a plain task;
+     live s e          = the future of e is still pending;
+     keyed s l         = every live entry of l has key == wprio of its task (up to == on Q);
+     before s l a b    = wprio(task a) < wprio(task b), or == and eseq a < eseq b;
+     woken s g         = future g holds a result/exception (the test of _wake_up_first);
+     lwt_ok s          = no waiter future is recorded twice in a lock's future->task table;
+     blocked_on s w l f = PriorityTask w is not runnable, _waiting_on = l, and (f, w) is its
+                         only row in lwt of l;
+     reaches s n t w   = propagate_priority started at t arrives at w after n hops
+                         (blocked task -> owner of the lock it waits for). *)
+From Coq Require Import QArith Sorting.Permutation.
+From Asynkit Require Import Base.Prelude Queue.PQ Queue.PosPQ Queue.Exec Sched.Model Sched.QFacts
+  Sched.LockInv Sched.LockThms Sched.InheritEprio Sched.InheritHandover Sched.InheritKeys
+  Sched.InheritFalls Sched.InheritExamples Sched.InheritThms.
+Open Scope nat_scope.
+
+(* Whenever _wake_up_first changes the state of a future f in a reachable state, f was
+   pending and now holds the result True, it is the future of array element 0, which is
+   STRICTLY least by (key, arrival number) among ALL queued entries, no queued waiter was
+   already woken (at most one hand-over in flight), and no other future changes. *)
+Theorem C12_handover_is_heap_min :
+  forall s l f, reachable s ->
+    fstate_ (getf (wake_up_first_p s l) f) <> fstate_ (getf s f) ->
+    exists head rest,
+      arr (lpq (getl s l)) = head :: rest /\ f = Z.to_nat (eobj head) /\
+      fstate_ (getf s f) = FPending /\
+      fstate_ (getf (wake_up_first_p s l) f) = FResult 1 /\
+      (forall e, In e rest -> entry_lt qltb head e = true) /\
+      (forall g, In g (pq_objs (lpq (getl s l))) -> woken s g = false) /\
+      (forall g, g <> f -> fstate_ (getf (wake_up_first_p s l) g) = fstate_ (getf s g)).
+Proof. exact C12_heap_min_reach. Qed.
+Print Assumptions C12_handover_is_heap_min.
+
+(* entry_lt qltb is the lexicographic order on (key, arrival number) *)
+Theorem C12_entry_order :
+  forall a b : entry Q,
+    entry_lt qltb a b = true <->
+    (epri a < epri b)%Q \/ ((epri a == epri b)%Q /\ (eseq a < eseq b)%Z).
+Proof. exact elt_q_true. Qed.
+Print Assumptions C12_entry_order.
+
+(* arrival numbers are arrival order: add() gives the new entry a number above all queued *)
+Theorem C12_arrival_numbers :
+  forall (q : pq Q) p o, PQInv q ->
+    Permutation (arr (pq_add HQ q p o)) (mkE p (seqn q) o :: arr q) /\
+    forall e, In e (arr q) -> (eseq e < seqn q)%Z.
+Proof. exact add_seq_last. Qed.
+Print Assumptions C12_arrival_numbers.
+
+(* Combination: if the keys of the live entries are the current effective priorities, the
+   woken waiter is the (effective priority, arrival)-least live waiter. *)
+Theorem C12_handover :
+  forall s l f, PQInv (lpq (getl s l)) -> keyed s l ->
+    fstate_ (getf (wake_up_first_p s l) f) <> fstate_ (getf s f) ->
+    exists head rest,
+      arr (lpq (getl s l)) = head :: rest /\ f = Z.to_nat (eobj head) /\
+      fstate_ (getf s f) = FPending /\
+      fstate_ (getf (wake_up_first_p s l) f) = FResult 1 /\
+      (forall e, In e rest -> live s e -> before s l head e) /\
+      (forall g, In g (pq_objs (lpq (getl s l))) -> woken s g = false).
+Proof. exact handover_by_eprio. Qed.
+Print Assumptions C12_handover.
+
+(* Plain tasks count as 0: a lock whose waiters are all plain tasks is FIFO. *)
+Theorem C12_plain_fifo :
+  forall s l f, PQInv (lpq (getl s l)) -> keyed s l ->
+    (forall e, In e (arr (lpq (getl s l))) -> is_prio_task s (entry_task (getl s l) e) = false) ->
+    fstate_ (getf (wake_up_first_p s l) f) <> fstate_ (getf s f) ->
+    exists head rest,
+      arr (lpq (getl s l)) = head :: rest /\ f = Z.to_nat (eobj head) /\
+      (forall e, In e rest -> live s e -> (eseq head < eseq e)%Z).
+Proof. exact handover_plain_fifo. Qed.
+Print Assumptions C12_plain_fifo.
+
+(* Key tracking.  propagate_priority (called by acquire() on the owner of the lock, when
+   somebody starts waiting for a lock the owner holds):
+   - changes no effective priority;
+   - keeps every lock's future->task table and set of queued futures; every entry keeps
+     its future and its arrival number, and its key is the old one or the CURRENT effective
+     priority of its task (so arrival order among equals is kept);
+   - keeps up-to-date keys up to date;
+   - re-keys, for every blocked PriorityTask w on the holder chain (t, the owner of the lock
+     t waits for, ...), the entry of w in the lock it waits for to w's current effective
+     priority. *)
+Theorem C12_key_tracks_eprio :
+  forall s t, Inv s -> lwt_ok s ->
+    let s' := propagate_priority s t in
+    (forall u, (effective_priority s' u == effective_priority s u)%Q) /\
+    (forall l, lwt (getl s' l) = lwt (getl s l) /\
+               Permutation (pq_objs (lpq (getl s' l))) (pq_objs (lpq (getl s l))) /\
+               forall e', In e' (arr (lpq (getl s' l))) ->
+                 exists e, In e (arr (lpq (getl s l))) /\ eseq e' = eseq e /\ eobj e' = eobj e /\
+                   ((epri e' == epri e)%Q \/
+                    (epri e' == wprio s' (entry_task (getl s' l) e'))%Q)) /\
+    (forall l, keyed s l -> keyed s' l) /\
+    (forall n w l f, reaches s n t w -> n < efuel s -> blocked_on s w l f ->
+       forall e, In e (arr (lpq (getl s' l))) -> Z.to_nat (eobj e) = f ->
+                 (epri e == effective_priority s' w)%Q).
+Proof. exact C12_propagate_thm. Qed.
+Print Assumptions C12_key_tracks_eprio.
+
+(* Non-vacuity: the reachable state istA (H = task 0 holds lock 0; W1 = task 1, own priority
+   5, holds lock 1 and is queued on lock 0 as future 3, arrival 0; W2 = task 2, priority 3,
+   queued on lock 0 as future 4, arrival 1; the late X = task 3, priority -5, queued on
+   lock 1).  The run has re-keyed W1's entry to the inherited -5, all hypotheses of the
+   theorems hold, and H's release() hands lock 0 to the inheritor W1, not to W2. *)
+Theorem C12_example :
+  (reachable istA /\ ranked istA /\ lwt_ok istA /\
+   arr (lpq (getl istA 0)) = [mkE (-5)%Q 0 3; mkE 3%Q 1 4] /\
+   lwt (getl istA 0) = [(3, 1); (4, 2)] /\
+   PQInv (lpq (getl istA 0)) /\ keyed istA 0 /\ keyed istA 1 /\
+   blocked_on istA 1 0 3 /\ blocked_on istA 3 1 6 /\ reaches istA 1 3 1 /\
+   map (fun t => Qred (effective_priority istA t)) [0; 1; 2; 3] = [(-5)%Q; (-5)%Q; 3%Q; (-5)%Q] /\
+   map (own istA) [0; 1; 2; 3] = [0%Q; 5%Q; 3%Q; (-5)%Q]) /\
+  (release_p istA 0 0 = (wake_up_first_p istA_free 0, RVal 0) /\
+   PQInv (lpq (getl istA_free 0)) /\ keyed istA_free 0 /\
+   fstate_ (getf (wake_up_first_p istA_free 0) 3) = FResult 1 /\
+   fstate_ (getf (wake_up_first_p istA_free 0) 4) = FPending /\
+   map (fun f => fstate_ (getf istR f)) [3; 4] = [FResult 1; FPending] /\
+   Qred (effective_priority istR 0) = 0%Q).
+Proof. exact (conj istA_facts istA_handover). Qed.
+Print Assumptions C12_example.
+
+(* Before the fix (finding F8): PriorityLock.propagate_priority looked the waiter up with
+   `fut is from_obj` although from_obj is the task, so reschedule() never found it
+   ([propagate_task_old]: the same code with a key that is never true).  In the reachable
+   state istPre, X's acquire(lock 1) leaves W1's entry with the stale key 5 although W1 now
+   has effective priority -5; the keys no longer track the effective priorities and
+   release() hands lock 0 to W2 (future 4, key 3): the more urgent W1 is overtaken.  The
+   repaired code re-keys the entry (same arrival number 0) and W1 gets the lock. *)
+Theorem C12_refuted_before_fix :
+  reachable istPre /\
+  arr (lpq (getl istOld 0)) = [mkE 3%Q 1 4; mkE 5%Q 0 3] /\
+  map (fun t => Qred (effective_priority istOld t)) [1; 2] = [(-5)%Q; 3%Q] /\
+  ~ keyed istOld 0 /\
+  map (fun f => fstate_ (getf (fst (release_p istOld 0 0)) f)) [3; 4] = [FPending; FResult 1] /\
+  arr (lpq (getl istNew 0)) = [mkE (-5)%Q 0 3; mkE 3%Q 1 4] /\
+  map (fun f => fstate_ (getf (fst (release_p istNew 0 0)) f)) [3; 4] = [FResult 1; FPending].
+Proof. exact rekey_refuted_before_fix. Qed.
+Print Assumptions C12_refuted_before_fix.
